@@ -28,7 +28,7 @@ P = {
          "Every access/query entry point of slices, regions, guest memory, bitmaps and stream helpers x boundary and extreme addresses/lengths/counts x layouts at the bottom and top of the address space; each call under catch_unwind plus a SIGABRT/SIGSEGV/SIGFPE handler that attributes the fault to the call, with a watchdog for calls that do not return, in the overflow-checked and in the release profile.",
          "Alphabet of boundary/extreme values, not all 2^64; program-controlled arguments (types, enlarge amounts, non-power-of-two alignments, array indices) excluded as documented.", "2/C07"),
  "C08": ("model_checking", "E3-sched", "stateless DFS over all interleavings of real threads under a controlled scheduler (hooked atomics, multinomial self-check), plus loom exploration of the same bitmap code under the C11 memory model",
-         "All interleavings (unbounded for the small harnesses, preemption-bounded where stated) of 2..3 real threads marking, resetting, harvesting and cloning one AtomicBitmap whose pages share a word or straddle two words; every schedule is an execution of the real code; per-page conservation oracle. A second engine, loom, enumerates every C11-consistent execution (interleavings and weak-memory reorderings) of smaller harnesses on the bitmap source compiled from the tree with loom's atomics.",
+         "All interleavings (unbounded for the small harnesses, preemption-bounded where stated) of 2..3 real threads marking, resetting, harvesting and cloning one AtomicBitmap whose pages share a word or straddle two words; every schedule is an execution of the real code; per-page conservation oracle plus a real-time-order oracle from recorded call/return events (a mark must be visible at the end or accounted for by a harvest/reset that returned after the mark was called). A second engine, loom, enumerates every C11-consistent execution (interleavings and weak-memory reorderings) of smaller harnesses on the bitmap source compiled from the tree with loom's atomics.",
          "E3: SC interleavings of whole atomic operations, interception by type through hook H2. loom: its model of the C11 memory model; the bitmap source is copied from the tree with only the atomic import switched.", "2/C08"),
  "C09": ("model_checking", "E1-bfs", "explicit-state BFS to a fixpoint over all public bitmap operations on tiny bitmaps, BTreeSet page-set model; exhaustive ranges on word-boundary configurations",
          "Closure over all operation sequences on bitmaps of <= 6 pages (state = complete concrete bitmap state), plus every (start,len) from boundary alphabets on 63..129-page and non-power-of-two configurations; model comparison of every observable after every step.",
@@ -37,22 +37,22 @@ P = {
          "From every reachable map: every insert interval of the universe, every region handle already held by the map or an ancestor, every (base,size) removal, every ordered build list of <= 3 intervals and lists with a repeated handle; documented error classes; parent and all ancestor maps re-read after every transition.",
          "Universe of 6 (quick) or 11 (thorough) cells at three bases.", "2/C10"),
  "C11": ("model_checking", "E3-sched + E1-bfs", "controlled-scheduler enumeration of updater/reader interleavings at ArcSwap/Mutex-operation granularity, plus BFS over sequential handle histories",
-         "All interleavings within a preemption bound (stated) of updaters (lock, derive, replace) and readers (snapshot, read, clone, convert, drop); snapshot == exactly one published map, no lost replacement, monotonic visibility, memory still mapped; sequential histories to depth 6.",
+         "All interleavings within a preemption bound (stated) of updaters (lock, derive, replace) and readers (snapshot, read, clone, convert, drop); snapshot == exactly one published map (maps identified by start and region instance; updates insert, remove or swap a region for a fresh one of the same range), no lost replacement, monotonic visibility, memory still mapped; sequential histories to depth 6.",
          "arc_swap internals execute for real but ArcSwap::load/store are treated as atomic steps; SC.", "2/C11"),
  "C12": ("model_checking", "E1-bfs + interposed mmap log + compile-fail grid", "explicit-state BFS over create/share/drop histories with link-time interposed mmap/munmap log; compile-fail grid for lifetimes",
-         "All histories to depth 6 (quick) or 8 (thorough) over 3 region kinds and all drop orders; mapped iff an owner is alive, munmap exactly once with the mapped (addr,len), external mappings never unmapped; the mapping log replayed as an address-space model (no page mapped for a region may outlive its owners); size sweep 1 byte .. 32 MiB+1 (thorough 1 GiB+1) x drop orders of five owners; std and Xen builds. A generated grid of escaping-accessor programs must be rejected by rustc while each non-escaping twin compiles.",
+         "All histories to depth 6 (quick) or 8 (thorough) over 3 region kinds and all drop orders; mapped iff an owner is alive, munmap exactly once with the mapped (addr,len), external mappings never unmapped; the mapping log replayed as an address-space model (no page mapped for a region may outlive its owners); size sweep 1 byte .. 32 MiB+1 (thorough 1 GiB+1) x drop orders of five owners; creations that fail half-way under one mmap / lseek fault leave nothing mapped; std and Xen builds. A generated grid of escaping-accessor programs must be rejected by rustc while each non-escaping twin compiles.",
          "'All client programs' rests on the enumerated grid + Rust's borrow checker.", "2/C12"),
  "C13": ("exploration", "exhaustive-inputs", "exhaustive enumeration of (stream length, position, buffer length) x call sequences per adapter against the std::io twin",
-         "Every adapter the crate provides x every stream length 0..20, cursor position incl. past-the-end and u64::MAX, buffer length 0..20 x sequences of up to 3 calls, plain and exact forms; same count, bytes, remaining stream state and error kind as std.",
+         "Every adapter the crate provides x every stream length 0..20, cursor position incl. past-the-end and u64::MAX, buffer length 0..20 x sequences of up to 3 (thorough 4) calls, plain and exact forms; descriptor adapters also under short and EINTR-interrupted system calls, wrong access modes and datagram sockets; same count, bytes, remaining stream state and error kind as std.",
          "TcpStream/Stdout exercised only where the sandbox allows; stream state after a failed exact call not compared.", "2/C13"),
  "C14": ("fault_enumeration", "E2-choice-tree", "choice-tree DFS over all fault scripts (short/zero/EINTR*/error) of the underlying stream, scripted adapters and interposed read/write syscalls",
          "Every script of per-call behaviours up to the length bound for three targets (slice, region, guest memory spanning two regions and a hole), all four transfer forms plus the trait-level exact forms; transfer model: EINTR retried, errors surface, no byte lost or duplicated.",
          "Scripts up to 5 calls, EINTR runs up to 3; counts {0,1,5,8,9,13}.", "2/C14"),
  "C15": ("fault_enumeration", "exhaustive-inputs + fault injection", "exhaustive enumeration of construction requests (sizes x file lengths x offsets x flag words incl. all Xen flag bytes) with injected mmap/ioctl failures, interposed mapping log",
-         "Acceptance predicate from the statement; attribute echo on success; nothing left mapped on failure (interposed log); shared file coherence byte by byte; Xen: all 256 low flag bytes and every high bit, emulated devices, injected failures.",
+         "Acceptance predicate from the statement; attribute echo on success; nothing left mapped on failure (interposed log); sequences of file lengths through one FileOffset lineage; every length query answered with EIO / 0 / 2^40; shared file coherence byte by byte; Xen: all 256 low flag bytes and every high bit, emulated devices, injected failures.",
          "Emulated gntdev/privcmd; safe requests the OS refuses may fail.", "2/C15"),
  "C16": ("model_checking", "E1-bfs", "same exploration as C05 with the precision oracle (dirty set after == before U pages of written bytes)",
-         "Same cases as C05; read-type operations, derivations, queries, rejected requests mark nothing; successful writes mark exactly the overlapping pages; the failed-descriptor-read exception is encoded.",
+         "Same cases as C05; read-type operations, derivations, queries, rejected requests mark nothing; successful writes mark exactly the overlapping pages; reset / reset-range / fetch-and-clear clear exactly the named pages and report exactly what was dirty (also on bitmaps of two and three words); the failed-descriptor-read exception is encoded.",
          "As C05.", "2/C05-C16"),
  "C17": ("model_checking", "exhaustive-inputs + histories on emulated grant device", "exhaustive enumeration of accessor kinds x types x counts (guards) and BFS over access histories on an emulated on-demand grant device (interposed ioctl/mmap)",
          "Guard len/ptr for every accessor kind, T of 1..16 bytes, counts 0..9; on the emulated device every access operation at page-crossing offsets must run inside windows covering all touched bytes and leave no window behind, also when any one mmap call or map-grant request of the operation fails (deviation bound 1).",
